@@ -1826,20 +1826,23 @@ class slate_BradleyTerry(BallotGenerator):
             else [(0, 0)] * num_ballots
         )
 
-        odds = (1 - cohesion) / cohesion
         # generate MCMC sample
         for i in range(num_ballots):
             # choose adjacent pair to propose a swap
             j1, j2 = swap_indices[i]
 
-            # if swap reduces number of voters bloc above opposing bloc
-            if (
-                current_ranking[j1] != current_ranking[j2]
-                and current_ranking[j1] == bloc
-            ):
-                acceptance_prob = odds
+            # Metropolis ratio for the stationary law
+            # cohesion^(own above opposing) * (1 - cohesion)^(opposing above own)
+            if current_ranking[j1] != current_ranking[j2]:
+                # swap reduces number of voters bloc above opposing bloc
+                if current_ranking[j1] == bloc:
+                    num, den = 1 - cohesion, cohesion
+                # swap increases number of voters bloc above opposing bloc
+                else:
+                    num, den = cohesion, 1 - cohesion
+                acceptance_prob = 1 if num >= den else num / den
 
-            # if swap increases number of voters bloc above opposing or swaps two of same bloc
+            # swaps two of same bloc
             else:
                 acceptance_prob = 1
 
